@@ -208,8 +208,15 @@ func zvC22Remotes(l zvC22Local, thorough bool) []zvC22Remote {
 	}
 	holds := []uint16{0, 1, 2, 3, 4, 90, 65535}
 	roleSets := [][]byte{nil, {0}, {1}, {2}, {3}, {4}, {0, 3}, {4, 4}}
+	// three role capabilities, one of them different, in every position (plain background only)
+	var roleTriples [][]byte
+	for r := byte(0); r < 5; r++ {
+		x := (r + 1) % 5
+		roleTriples = append(roleTriples, []byte{x, r, r}, []byte{r, x, r}, []byte{r, r, x}, []byte{r, r, r})
+	}
 	if l.Role == PeerConfigRoleOff || l.IBGP {
 		roleSets = [][]byte{nil, {3}}
+		roleTriples = nil
 	}
 	if l.IPv6 || l.MPv4 {
 		// the multiprotocol dimension: every combination of the two capabilities x 4-octet capability x packaging
@@ -239,6 +246,11 @@ func zvC22Remotes(l zvC22Local, thorough bool) []zvC22Remote {
 									}
 								}
 								rs = append(rs, zvC22Remote{Version: ver, AS2: as2, Cap4: cap4, ID: id, Hold: h, AP: ap, Roles: roles})
+								if ver == 4 && id == "other" && h == 90 && ap == 0 && len(roles) == 0 {
+									for _, tr := range roleTriples {
+										rs = append(rs, zvC22Remote{Version: ver, AS2: as2, Cap4: cap4, ID: id, Hold: h, AP: ap, Roles: tr})
+									}
+								}
 								// the same capabilities spread over several Capabilities optional parameters (RFC 5492)
 								if ver == 4 && id == "other" && (h == 90 || h == 3) && (len(roles) > 0 || ap != 0) && (cap4 != "absent" || len(roles) > 1 || (len(roles) > 0 && ap != 0)) {
 									for _, pk := range []string{"split", "split-rev"} {
@@ -437,7 +449,7 @@ func TestVerifC22(t *testing.T) {
 	r := vh.Start(t, "C22")
 	defer r.Finish()
 	r.Rule("cross product of the peer's OPEN (version x 2-octet AS {configured, other, AS_TRANS} x 4-octet capability {absent, configured, other} x identifier {0, ours, other} x hold time {0,1,2,3,4,90,65535} " +
-		"x add-path {none,recv,send,both} x multiprotocol capabilities {none, IPv4, IPv6, both} (against local configurations with IPv6 / IPv4-multiprotocol) x role capabilities x capability packaging {one Capabilities parameter, one parameter per capability in either order}) with local configurations (iBGP/eBGP, 2-/4-octet peer AS, hold 3/90, add-path recv/send, role/strict); every case runs the real FSM from OpenSent under the virtual runtime; " +
+		"x add-path {none,recv,send,both} x multiprotocol capabilities {none, IPv4, IPv6, both} (against local configurations with IPv6 / IPv4-multiprotocol) x role capabilities (none, one, two, three with one of them different in every position) x capability packaging {one Capabilities parameter, one parameter per capability in either order}) with local configurations (iBGP/eBGP, 2-/4-octet peer AS, hold 3/90, add-path recv/send, role/strict); every case runs the real FSM from OpenSent under the virtual runtime; " +
 		"every admitted OPEN of the role-less local configurations also as the second session of a peer whose first session negotiated all capabilities; non-trivial = cases in which the session was established and the negotiated values were compared")
 	r.Require("mp4_on", "mp6_on", "second_session_cases", "ref_rejects", "established", "addpath_rx_on", "addpath_tx_on", "asn4_on", "ref_rejects:hold time", "ref_rejects:peer AS", "ref_rejects:role pair")
 	if r.IsReplay() {
